@@ -30,6 +30,7 @@ SATPROJ, SATSET, SATPROFILE, SATSOLVER = 20, 21, 22, 23
 AVGLEN, MEDLEN, AVGCOST, MEDCOST, AVGAPP, MEDAPP, AVGTOT, MEDTOT, VOTES_COUNT, VOTER_FLOW = range(30, 40)
 AVGSAT, NEH, POSSAT, GINI, GINI_INV, HIST, CATPROP, PROJLOSS, EFFSUP, PROFMETH = range(40, 50)
 COHESIVE, MAXCOHESIVE, CORE, JR_APP, JR_CARD, PARTYLIST = 50, 51, 52, 53, 54, 55
+HIST_LIST, HIST_FRESH = 60, 61
 
 _NAMES = {
     GREEDY: "greedy_utilitarian_welfare", MAXW: "max_additive_utilitarian_welfare (welfare of the outcome)",
@@ -50,6 +51,9 @@ _NAMES = {
     EFFSUP: "calculate_effective_supports",
     PROFMETH: "a profile method (num_ballots, approval_score, approved_projects, is_trivial, total_score)",
     PARTYLIST: "AbstractApprovalProfile.is_party_list",
+    HIST_LIST: "a MultiProfile edited in place (del/pop/popitem/clear/subtract/-=/&=/|=/+=/[]=/append/extend/update/"
+               "setdefault) after having been queried",
+    HIST_FRESH: "a MultiProfile edited in place after having been queried, against a FRESH as_multiprofile() of the same voters:",
     COHESIVE: "cohesive_groups (as a set of (distinct ballots, projects) pairs)",
     MAXCOHESIVE: "maximal_cohesive_groups (not asked: not a public analysis function)", CORE: "is_in_core",
     JR_APP: "an approval JR checker (is_[strong_]EJR/PJR[_any/_one]_approval)",
@@ -58,10 +62,14 @@ _NAMES = {
 _SHORT = {k: v.split(" (")[0].split("(")[0] for k, v in _NAMES.items()}
 _SHORT.update({GREEDY_FLOAT: "rule with a float-valued measure", SATPROFILE: "as_sat_profile", SATSOLVER: "solver-backed measure",
                PROFMETH: "profile method", JR_APP: "approval JR checkers", JR_CARD: "cardinal JR checkers",
-               MESITER: "method_of_equal_shares (iterated)", SATPROJ: "sat_project", SATSET: "sat"})
+               MESITER: "method_of_equal_shares (iterated)", SATPROJ: "sat_project", SATSET: "sat",
+               HIST_LIST: "history: edited multiprofile vs edited list profile",
+               HIST_FRESH: "history: edited multiprofile vs fresh multiprofile"})
 CODES = {1: ("model", "generator error: no ballot of the multiprofile has multiplicity >= 2")}
 for _k, _n in _NAMES.items():
     CODES[_k] = ("oracle", "%s answers differently on profile and on profile.as_multiprofile()" % _n)
+CODES[HIST_LIST] = ("oracle", _NAMES[HIST_LIST] + " answers differently from the list profile whose voters were removed/added alike")
+CODES[HIST_FRESH] = ("oracle", _NAMES[HIST_FRESH] + " the two equal multiprofiles answer differently")
 CODES[210] = ("model", "greedy_utilitarian_welfare differs from Model/GreedyRule.v evaluated on the classes / on the voters")
 CODES[214] = ("model", "sequential_phragmen differs from Model/Phragmen.v evaluated on the classes / on the voters")
 CODES[220] = ("model", "Effort_Sat.sat_project differs from Model/Satisfaction.v evaluated on the classes / on the voters")
@@ -77,7 +85,10 @@ RULE = ("elections with 1..6 projects (tie-rich cost pools: zeros, equal costs, 
         "increase, popularity/social-welfare comparison; every shipped satisfaction measure per voter (sat_project of "
         "every project, sat of subsets, satisfaction profiles); every public function of pabutools.analysis that takes a "
         "profile (statistics, voter satisfaction, category proportionality, Equal Shares analytics, cohesive groups, core, "
-        "JR checkers on <=4 voters/<=4 projects); non-trivial = distinct election with >=2 distinct ballots, a multiplicity "
+        "JR checkers on <=4 voters/<=4 projects); HISTORY stream: the multiprofile is queried, then edited IN PLACE by every "
+        "Counter/dict path (del, pop, popitem, clear, subtract, -=, &=, |=, +=, []=, append, extend, update, setdefault; 2..5 "
+        "edits, a query after each) while the same voters are removed from / appended to the list profile, and must keep "
+        "answering like the list profile and like a fresh conversion of it; non-trivial = distinct election with >=2 distinct ballots, a multiplicity "
         ">=2 and at least one call whose result is not empty/zero")
 ASSUMPTIONS = [
     "hand-written Gallina models tied to the code by differential execution only",
@@ -104,8 +115,10 @@ EXC_TAGS = {"ValueError": 1, "TypeError": 2, "ZeroDivisionError": 3, "NotImpleme
 # oracle failures of a run; known findings must not crowd out a new violation)
 BOUNDED = {VOTES_COUNT, VOTER_FLOW}
 FLOAT_SATS = {"Additive_Cost_Sqrt_Sat", "Additive_Cost_Log_Sat", "Cost_Sqrt_Sat", "Cost_Log_Sat"}
-KINDS = ["rules", "sat", "analysis", "rules", "composite", "analysis", "rules", "jr",
-         "rules", "sat", "analysis", "rules", "composite", "analysis", "rules", "solver"]
+KINDS = ["rules", "sat", "analysis", "history", "composite", "analysis", "rules", "jr",
+         "rules", "sat", "analysis", "history", "composite", "analysis", "rules", "solver"]
+HIST_OPS = ["del", "pop", "popitem", "clear", "subtract_map", "subtract_iter", "isub", "iand", "ior", "iadd", "set",
+            "append", "extend", "update_map", "update_iter", "setdefault"]
 
 
 def budget(tier):
@@ -299,6 +312,25 @@ def gen(rng, i, tier):
                          "alloc": allocs[-1]}
         e["mes_analytics"] = [{"sat": rng.choice(_sats(bt, additive=True, floats=False)), "tb": _tb(rng, bt, n)}]
         e["model"] = bt == "approval"
+    elif kind == "history":
+        # HISTORY stream: query the multiprofile, edit it in place (every Counter path), query again
+        pool = []
+        for b in e["ballots"] + el.gen_ballots(rng, bt, n, 3):
+            b = sorted(b) if bt == "approval" else b
+            if _bkey(b) not in {_bkey(x) for x in pool}:
+                pool.append(b)
+        e["pool"] = pool
+        np_ = len(pool)
+        ops = []
+        for _ in range(rng.choice([2, 3, 4, 5])):
+            name = rng.choice(HIST_OPS + ["del", "pop", "popitem", "clear"])     # the removal paths twice as often
+            ops.append({"op": name, "b": rng.randrange(np_), "k": rng.choice([1, 1, 2, 3]),
+                        "other": [[rng.randrange(np_), rng.choice([1, 1, 2, 3])] for _ in range(rng.choice([1, 2, 3]))]})
+        e["ops"] = ops
+        e["sat"] = rng.choice(_sats(bt, additive=True, floats=False))
+        e["sat2"] = rng.choice(_sats(bt, floats=False))
+        e["alloc"] = el.feasible_subset(rng, e["costs"], e["budget"], 6) or sorted(rng.sample(range(n), rng.randrange(1, n + 1)))
+        e["hist"] = [rng.randrange(2, 9), pb.qs(rng.choice([1, 2, 3, "1/2"]))]
     elif kind == "jr":
         if bt in ("cardinal", "cumulative"):
             # the cardinal checkers read ballot[p] for every project: complete ballots (missing score = 0)
@@ -583,6 +615,8 @@ def _impl(case):
         ent += _analysis_entries(case, sides, listprof)
     elif kind == "jr":
         ent += _jr_entries(case, sides, classes)
+    elif kind == "history":
+        ent += _history_entries(case)
 
     if not case.get("ask_known"):
         out["entries"] = ent = [x for x in ent if x[0] not in BOUNDED]
@@ -712,6 +746,157 @@ def _jr_entries(case, sides, classes):
     return ent
 
 
+def _history_entries(case):
+    """Query mp = profile.as_multiprofile(); edit mp IN PLACE by the Counter/dict paths and the list profile alike (the same
+    voters removed / appended); after every edit the edited multiprofile must answer like the edited list profile
+    (HIST_LIST) and like a fresh conversion of it (HIST_FRESH)."""
+    import pabutools.analysis as an
+    from pabutools.analysis.votersatisfaction import percent_positive_satisfaction
+    from pabutools.rules import method_of_equal_shares, greedy_utilitarian_welfare, sequential_phragmen
+
+    bt = case["btype"]
+    inst, projs = pb.make_instance(case["costs"], case["budget"], case.get("order"))
+    listprof = pb.make_profile(bt, inst, projs, case["ballots"], False)
+    mp = listprof.as_multiprofile()
+    poolprof = pb.make_profile(bt, inst, projs, case["pool"], False)
+    pool = list(poolprof)                       # Ballot objects
+    fpool = [b.frozen() for b in pool]          # their frozen forms (keys of the multiprofile)
+    keys = [_bkey(b) for b in case["pool"]]
+    cnt = [0] * len(pool)                       # the voters: number of copies of every pool ballot
+    for b in case["ballots"]:
+        b = sorted(b) if bt == "approval" else b
+        cnt[keys.index(_bkey(b))] += 1
+    cls, cls2 = el.sat_class(case["sat"]), el.sat_class(case["sat2"])
+    alloc = [projs[j] for j in case["alloc"]]
+    hk, hmx = case["hist"]
+
+    def idx_of(b):
+        fb = b if _is_frozen(b) else b.frozen()
+        return fpool.index(fb)
+
+    def voters(P):
+        if isinstance(P, list):
+            return sorted(idx_of(b) for b in P)
+        return sorted(i for b in P for i in [idx_of(b)] * max(0, int(P.multiplicity(b))))
+
+    QUERIES = [
+        ("num_ballots", lambda P: vnum(P.num_ballots())),
+        ("voters", lambda P: vq(voters(P))),
+        ("avg_ballot_length", lambda P: vnum(an.avg_ballot_length(inst, P))),
+        ("median_ballot_cost", lambda P: vnum(an.median_ballot_cost(inst, P))),
+        ("mes", lambda P: vset(method_of_equal_shares(inst, P, sat_class=cls))),
+        ("greedy", lambda P: vset(greedy_utilitarian_welfare(inst, P, sat_class=cls2))),
+        ("avg_satisfaction", lambda P: vnum(an.avg_satisfaction(inst, P, alloc, cls2))),
+        ("percent_positive", lambda P: vnum(percent_positive_satisfaction(P, alloc, cls2))),
+        ("gini", lambda P: vnum(an.gini_coefficient_of_satisfaction(inst, P, alloc, cls2))),
+        ("histogram", lambda P: vq([float(x) for x in an.satisfaction_histogram(inst, P, alloc, cls2, pb.num(hmx), hk)])),
+    ]
+    if bt == "approval":
+        QUERIES += [("phragmen", lambda P: vset(sequential_phragmen(inst, P))),
+                    ("approval_score", lambda P: vq([P.approval_score(p) for p in projs]))]
+    if bt in ("cardinal", "cumulative"):
+        QUERIES += [("total_score", lambda P: vq([P.total_score(p) for p in projs]))]
+
+    def ask(fn, P):
+        try:
+            return fn(P)
+        except Exception as ex:  # noqa
+            return vexc(ex)
+
+    ent = []
+
+    def stage(tag):
+        fresh = listprof.as_multiprofile()
+        for name, fn in QUERIES:
+            on_mp = ask(fn, mp)
+            ent.append([HIST_LIST, tag + ":" + name, ask(fn, listprof), on_mp])
+            ent.append([HIST_FRESH, tag + ":" + name, ask(fn, fresh), on_mp])
+
+    def other_mp(pairs):
+        bs = [case["pool"][i] for i, k in pairs for _ in range(k)]
+        return pb.make_profile(bt, inst, projs, bs, True)
+
+    def sync(i, new):
+        """the list profile: bring the number of voters with pool ballot i to `new`"""
+        while cnt[i] > new:
+            listprof.remove(pool[i])
+            cnt[i] -= 1
+        while cnt[i] < new:
+            listprof.append(pool[i])
+            cnt[i] += 1
+
+    stage("0")
+    for k, op in enumerate(case["ops"]):
+        name, i, m = op["op"], op["b"] % len(pool), op["k"]
+        pairs = [[j % len(pool), c] for j, c in op["other"]]
+        oc = [0] * len(pool)
+        for j, c in pairs:
+            oc[j] += c
+        done = name
+        if name in ("del", "pop") and cnt[i] > 0:
+            if name == "del":
+                del mp[fpool[i]]
+            else:
+                mp.pop(fpool[i])
+            sync(i, 0)
+        elif name == "popitem" and sum(cnt) > 0:
+            key, _ = mp.popitem()
+            sync(idx_of(key), 0)
+        elif name == "clear":
+            mp.clear()
+            for j in range(len(pool)):
+                sync(j, 0)
+        elif name in ("subtract_map", "subtract_iter") and cnt[i] >= 2:
+            m = min(m, cnt[i] - 1)               # a class never drops to multiplicity 0 (not a multiprofile of voters)
+            if name == "subtract_map":
+                mp.subtract({fpool[i]: m})
+            else:
+                mp.subtract([fpool[i]] * m)
+            sync(i, cnt[i] - m)
+        elif name == "isub":
+            mp -= other_mp(pairs)
+            for j in range(len(pool)):
+                sync(j, max(0, cnt[j] - oc[j]))
+        elif name == "iand":
+            mp &= other_mp(pairs)
+            for j in range(len(pool)):
+                sync(j, min(cnt[j], oc[j]))
+        elif name == "ior":
+            mp |= other_mp(pairs)
+            for j in range(len(pool)):
+                sync(j, max(cnt[j], oc[j]))
+        elif name == "iadd":
+            mp += other_mp(pairs)
+            for j in range(len(pool)):
+                sync(j, cnt[j] + oc[j])
+        elif name == "set":
+            mp[fpool[i]] = m
+            sync(i, m)
+        elif name == "append":
+            mp.append(fpool[i])
+            sync(i, cnt[i] + 1)
+        elif name == "extend":
+            mp.extend([pool[j] for j, c in pairs for _ in range(c)])
+            for j in range(len(pool)):
+                sync(j, cnt[j] + oc[j])
+        elif name == "update_map":
+            mp.update({fpool[j]: c for j, c in enumerate(oc) if c})
+            for j in range(len(pool)):
+                sync(j, cnt[j] + oc[j])
+        elif name == "update_iter":
+            mp.update([fpool[j] for j, c in pairs for _ in range(c)])
+            for j in range(len(pool)):
+                sync(j, cnt[j] + oc[j])
+        elif name == "setdefault" and cnt[i] == 0:
+            mp.setdefault(fpool[i], m)
+            sync(i, m)
+        else:
+            done = "skipped"
+        if done != "skipped":
+            stage("%d-%s" % (k + 1, name))
+    return ent
+
+
 def _model_obs(case, sides):
     """observables compared with the Gallina models (approval elections): both sides must already agree (oracle);
     the model is compared with the list-profile side"""
@@ -825,7 +1010,8 @@ def stats(cases, obs):
          "float_valued_calls": 0, "max_multiplicity_hist": {}, "classes_with_mult_ge2_hist": {}, "nvoters_hist": {},
          "nproj_hist": {}, "has_empty_ballot": 0, "has_zero_cost": 0, "fractional_costs": 0,
          "project_dearer_than_budget": 0, "irresolute_calls": 0, "irresolute_with_several_outcomes": 0,
-         "calls_with_initial_allocation": 0, "model_checks": 0, "single_class_elections": 0}
+         "calls_with_initial_allocation": 0, "model_checks": 0, "single_class_elections": 0,
+         "history_edits_by_path": {}, "history_edits_emptying_the_profile": 0}
     for c, o in zip(cases, obs):
         if not isinstance(o, dict) or "entries" not in o:
             continue
@@ -845,6 +1031,13 @@ def stats(cases, obs):
         d["fractional_costs"] += any(x.denominator != 1 for x in cs)
         d["project_dearer_than_budget"] += any(x > pb.F(c["budget"]) for x in cs)
         d["model_checks"] += len(o.get("model", []))
+        if c["kind"] == "history":
+            for e in o["entries"]:
+                tag, qn = e[1].split(":")
+                if qn == "num_ballots" and e[0] == HIST_LIST and tag != "0":
+                    opn = tag.split("-", 1)[1]
+                    d["history_edits_by_path"][opn] = d["history_edits_by_path"].get(opn, 0) + 1
+                    d["history_edits_emptying_the_profile"] += ("q" in e[2] and pb.F(e[2]["q"][0]) == 0)
         for e in o["entries"]:
             d["calls_total"] += 1
             nm = _SHORT.get(e[0], str(e[0]))
@@ -876,6 +1069,11 @@ def shrink(case):
                 c = dict(case)
                 c[key] = [v[j]]
                 yield c
+    if case.get("ops") and len(case["ops"]) > 1:
+        for j in range(len(case["ops"])):
+            c = dict(case)
+            c["ops"] = case["ops"][:j] + case["ops"][j + 1:]
+            yield c
     if case.get("cats"):
         c = dict(case)
         c["cats"] = None
@@ -932,6 +1130,17 @@ def shrink(case):
                         cc["tb"] = [cc["tb"][0], ren(cc["tb"][1])]
                     calls.append(cc)
                 c["calls"] = calls
+            if "pool" in case:
+                if case["btype"] in ("cardinal", "cumulative"):
+                    pl = [{str(int(k) - (int(k) > j)): v for k, v in b.items() if int(k) != j} for b in case["pool"]]
+                elif case["btype"] == "approval":
+                    pl = [sorted(ren(b)) for b in case["pool"]]
+                else:
+                    pl = [ren(b) for b in case["pool"]]
+                if len({_bkey(b) for b in pl}) < len(pl):
+                    continue        # two pool ballots would coincide
+                c["pool"] = pl
+                c["alloc"] = ren(case["alloc"])
             if "subsets" in case:
                 c["subsets"] = [ren(s) for s in case["subsets"]]
             if "satq" in case:
